@@ -690,19 +690,6 @@ def let_context_explains(pr):
     return bool(same) and is_prefix(target_mod, same[-1])
 
 
-def reexport_overwrites_reached(pr):
-    """F12-cycle: some `pub use` exports the mangled name of the private function that was reached (the negation of the
-    hypothesis `reexportsFresh` of C17_no_private_route, for that function)"""
-    try:
-        k = int(pr["impl"][1])
-    except ValueError:
-        return False
-    hits = [d for d in walk_defs(pr["items"]) if d[3] == k and d[5] == "fn"]
-    if not hits:
-        return False
-    return hits[0][0] + (hits[0][1],) in set(exported_names(pr["items"]))
-
-
 def finding_class(pr):
     """which listed finding class (if any) explains a property failure on which model and implementation agree"""
     if not pr["agree"]:
@@ -713,8 +700,6 @@ def finding_class(pr):
         return "module-let-global"
     if pr["judge"] == "private-fn-route" and let_context_explains(pr):
         return "private-fn-route+let-context"
-    if pr["judge"] == "private-fn-route" and reexport_overwrites_reached(pr):
-        return "private-fn-route+reexport-of-declared-name"
     if pr["judge"] == "private-fn-route" and pr["dup_decl"]:
         return "private-fn-route+duplicate-decl"
     return None
